@@ -36,13 +36,32 @@ func (t *vScripted) Send(ctx context.Context, b []byte) ([]byte, error) {
 
 // vC19Conn is one independent connection with a prepared workload.
 type vC19Conn struct {
-	t    *vScripted
-	slt  *V2SessionlessTransport
-	vs   *vSession
-	run  func()
-	code ipmi.CompletionCode
-	err  error
-	want int // datagrams the workload sends when run alone
+	t     *vScripted
+	slt   *V2SessionlessTransport
+	vs    *vSession
+	run   func()
+	code  ipmi.CompletionCode
+	err   error
+	want  int // datagrams the workload sends when run alone
+	kind  int
+	final ipmi.CompletionCode // the completion code the workload ends with when run alone
+}
+
+// observable is the part of what the workload did that is the same in every run alone:
+// result, number and lengths of datagrams, and the datagram bytes that contain no
+// console randomness (everything session-less; the Open Session Request of a handshake).
+func (c *vC19Conn) observable() []byte {
+	o := []byte{byte(c.code), 0, byte(len(c.t.sent))}
+	if c.err != nil {
+		o[1] = 1
+	}
+	for i, d := range c.t.sent {
+		o = append(o, byte(len(d)))
+		if c.kind == 0 || c.kind == 3 || (c.kind == 4 && i == 0) {
+			o = append(o, d...)
+		}
+	}
+	return o
 }
 
 // vC19Workload prepares, with all inputs drawn in advance, one of: a session-less
@@ -50,15 +69,20 @@ type vC19Conn struct {
 // an SDR repository walk; cipher suite discovery with the default preferences; a complete
 // session handshake.
 func vC19Workload(kind int) *vC19Conn {
-	c := &vC19Conn{t: &vScripted{}, want: 2}
+	c := &vC19Conn{t: &vScripted{}, want: 2, kind: kind}
 	busy := func(cc byte, body []byte) []byte { return append([]byte{cc}, body...) }
 	switch kind {
 	case 0:
 		c.slt = vNewSessionless(&c.t.vFakeTransport)
 		c.slt.V2Sessionless.transport = c.t
 		c.slt.Transport = c.t
+		// the final answer carries an arbitrary (possibly undocumented) completion code
+		cc := vByte()
+		vAssume(cc != 0xC0)
+		vAssume(cc != 0xC3)
+		c.final = ipmi.CompletionCode(cc)
 		m1 := refBuildMsg(0x81, 0x07, 0, 0x20, 1, 0, 0x37, busy(0xC0, nil))
-		m2 := refBuildMsg(0x81, 0x07, 0, 0x20, 1, 0, 0x37, busy(0x00, vBytes(16)))
+		m2 := refBuildMsg(0x81, 0x07, 0, 0x20, 1, 0, 0x37, busy(cc, vBytes(16)))
 		c.t.replies = [][]byte{refSessionless(0, m1), refSessionless(0, m2)}
 		cmd := &ipmi.GetSystemGUIDCmd{}
 		c.run = func() { c.code, c.err = c.slt.SendCommand(context.Background(), cmd) }
@@ -123,19 +147,23 @@ func vC19Workload(kind int) *vC19Conn {
 // reads and writes are compared: no cell written by one may be read or written by the
 // other (disjoint footprints => the operations commute, every interleaving gives the
 // sequential results, and there is no conflicting access, i.e. no data race). In native
-// replay the two workloads run concurrently under the race detector.
+// replay the two workloads run concurrently under the race detector; if it is silent (the
+// shared state may be synchronised), each workload is run alone and after the other one,
+// in separate processes, and what it did (results, datagrams) is compared.
 func VerifC19_IndependentConnections() {
 	ka, kb := vChoice(5), vChoice(5)
 	a, b := vC19Workload(ka), vC19Workload(kb)
 	vUseRealRand()
 	conflict := vConflicts(a.run, b.run)
+	vIsolation("a", a.observable())
+	vIsolation("b", b.observable())
 	vAssert(!conflict, "c19-independent-connections-touch-disjoint-state")
 	vAssert(a.err == nil && b.err == nil, "c19-both-workloads-complete")
 	if ka != 2 {
-		vAssert(a.code == ipmi.CompletionCodeNormal && len(a.t.sent) == a.want, "c19-workload-a-as-when-run-alone")
+		vAssert(a.code == a.final && len(a.t.sent) == a.want, "c19-workload-a-as-when-run-alone")
 	}
 	if kb != 2 {
-		vAssert(b.code == ipmi.CompletionCodeNormal && len(b.t.sent) == b.want, "c19-workload-b-as-when-run-alone")
+		vAssert(b.code == b.final && len(b.t.sent) == b.want, "c19-workload-b-as-when-run-alone")
 	}
 	vReached("end")
 }
